@@ -287,12 +287,16 @@ func (w *World) trimHelper(fd *ast.FuncDecl) (dir string, cut string, ok bool) {
 		dir = "left"
 	case w.calleeIs(call, "strings", "", "TrimRight"):
 		dir = "right"
+	case w.calleeIs(call, "strings", "", "TrimLeftFunc"):
+		return "left", "<function " + types.ExprString(call.Args[1]) + ">", true
+	case w.calleeIs(call, "strings", "", "TrimRightFunc"):
+		return "right", "<function " + types.ExprString(call.Args[1]) + ">", true
 	default:
 		return "", "", false
 	}
 	tv, has := w.Info.Types[call.Args[1]]
 	if !has || tv.Value == nil || tv.Value.Kind() != constant.String {
-		return "", "", false
+		return dir, "<non-constant " + types.ExprString(call.Args[1]) + ">", true
 	}
 	return dir, constant.StringVal(tv.Value), true
 }
@@ -312,7 +316,7 @@ func checkR13_2(w *World, r *Report, kt *kindTable) {
 			set[c] = true
 		}
 		want := " \t\n\r"
-		good := len(set) == 4
+		good := len(set) == 4 && !strings.HasPrefix(cut, "<")
 		for _, c := range want {
 			if !set[c] {
 				good = false
